@@ -117,8 +117,9 @@ def one(seed, dec, cfg, prog):
         msgs = _mask_reports(msgs)
     elif rc.violation is None:
         try:
-            O.account(msgs, rc.model, lenient=True)
-            O.check_forest(msgs, rc.model, order_free=False, lenient=True, fields=False, require_complete=False)
+            O.account(msgs, rc.model, lenient=True, ends=False)
+            O.check_forest(msgs, rc.model, order_free=False, lenient=True, fields=False, require_complete=False,
+                           status=False)
         except Violation as v:
             rc.fail_v(v)
     return rc, msgs
